@@ -7,6 +7,7 @@ import XdsVerif.Driver.C14
 import XdsVerif.Driver.C15
 import XdsVerif.Driver.C20
 import XdsVerif.Driver.Handlers
+import XdsVerif.Driver.Decode
 open Lean XdsVerif.Driver
 
 def dispatch (p : String) (j : Json) : Except String Verdict :=
@@ -19,6 +20,9 @@ def dispatch (p : String) (j : Json) : Except String Verdict :=
   | "C08" => C08.check j
   | "C09" => C09.check j
   | "C10" => C10.check j
+  | "C11" => Decode.check "C11" j
+  | "C12" => Decode.check "C12" j
+  | "C13" => Decode.check "C13" j
   | "C14" => C14.check j
   | "C15" => C15.check j
   | "C16" => Handlers.checkCb j
